@@ -1600,4 +1600,42 @@ theorem refineLoop_settled (eps : Rat) (heps : 0 < eps) (cols : List (List Int))
     · exact ih _ (refineIter_range eps cols h n hn pts) hr
 
 
+/-! ## merge_close_peaks (deepening round D) -/
+
+theorem mergeCloseFrame_sublist (d : Rat) (fr : List (Rat × Rat)) : (mergeCloseFrame d fr).Sublist fr := by
+  unfold mergeCloseFrame
+  have h : (fr.zipIdx.map (·.1)) = fr := by simp
+  conv => rhs; rw [← h]
+  exact List.Sublist.map _ List.filter_sublist
+
+theorem order_get (fr : List (Rat × Rat)) (r : Nat) (k : Nat)
+    (h : (argsort (fun (a b : Rat) => decide (a ≤ b)) (fr.map (·.1)))[r]? = some k) : k < fr.length := by
+  have hm := List.mem_of_getElem? h
+  have := (argsort_perm _ _).mem_iff.1 hm
+  simpa using this
+
+theorem filterMap_getElem_all {β} (order : List Nat) (fr : List β) (hall : ∀ k ∈ order, k < fr.length) (i : Nat) :
+    (order.filterMap fun k => fr[k]?)[i]? = (order[i]?).bind (fun k => fr[k]?) := by
+  induction order generalizing i with
+  | nil => simp
+  | cons a l ih =>
+    have ha := hall a (by simp)
+    rw [List.filterMap_cons, List.getElem?_eq_getElem ha]
+    cases i with
+    | zero => simp [List.getElem?_eq_getElem ha]
+    | succ j =>
+      simp only [List.getElem?_cons_succ]
+      exact ih (fun k hk => hall k (by simp [hk])) j
+
+theorem sorted_get (fr : List (Rat × Rat)) (i : Nat) (p : Rat × Rat)
+    (h : ((argsort (fun (a b : Rat) => decide (a ≤ b)) (fr.map (·.1))).filterMap fun i => fr[i]?)[i]? = some p) :
+    ∃ k, (argsort (fun (a b : Rat) => decide (a ≤ b)) (fr.map (·.1)))[i]? = some k ∧ fr[k]? = some p := by
+  rw [filterMap_getElem_all _ fr (fun k hk => by
+    obtain ⟨r, hr⟩ := List.mem_iff_getElem?.1 hk
+    exact order_get fr r k hr)] at h
+  cases ho : (argsort (fun (a b : Rat) => decide (a ≤ b)) (fr.map (·.1)))[i]? with
+  | none => rw [ho] at h; simp at h
+  | some k => rw [ho] at h; exact ⟨k, rfl, by simpa using h⟩
+
+
 end Verif.C08
